@@ -56,7 +56,12 @@ def build(tier):
 
 
 def run_impl(built, cases, tier):
-    return G.run_impl_multi(built, cases, tier)
+    """HYP cases have no implementation side (they evaluate the theorem's hypotheses on the
+    generated object): constant "1"."""
+    default = next(iter(built["exes"]))
+    real = [c for c in cases if not G.schema_of(c.line, default)[1].startswith("HYP ")]
+    out = iter(G.run_impl_multi(built, real, tier))
+    return ["1" if G.schema_of(c.line, default)[1].startswith("HYP ") else next(out) for c in cases]
 
 
 def pre(schema, default):
@@ -105,6 +110,17 @@ def gen_cases(rng, tier):
         deep = G.MsgGen(meta, rng, p_opt=0.5)
         for _ in range(600 if thorough else 150):
             cs.append(Case(px + "RT s " + G.ser_msg(*deep.message(rng.choice(gtypes), max_wire=5500)), "rt-groups"))
+        # flat messages (no group elements, no Length/data pair, no trailer field): the domain of theorem
+        # c01_roundtrip_partial -- run them (RT) and check that its hypotheses hold for them (HYP)
+        def positioned(owner):
+            return all(t.flags & 4 for t in meta.traits.get(owner, [])) and all(positioned(x) for x in meta.groups.get(owner, {}).values())
+        good = [mt for mt in types if positioned(mt)]
+        flat = G.MsgGen(meta, rng, p_opt=0.4, max_elems=0, no_pairs=True)
+        for mt in good * (2 if thorough else 1) + [rng.choice(good) for _ in range(400 if thorough else 120)]:
+            mt2, hdr, body, trl = flat.message(mt)
+            spec = G.ser_msg(mt2, hdr, body, [])
+            cs.append(Case(px + "RT s " + spec, "rt-flat"))
+            cs.append(Case(px + "HYP " + spec, "hypotheses"))
         # known-finding class: negative ints (fast_atoi ignores the sign)
         k = 0
         for _ in range(2000):
@@ -161,10 +177,14 @@ def _parts(case):
     default = next(iter(built["exes"]))
     schema, rest = G.schema_of(case.line, default)
     w = rest.split(" ")
+    if w[0] == "HYP":
+        return built["metas"][schema], w[1], ""
     return built["metas"][schema], w[2], (w[3] if len(w) > 3 else "")
 
 
 def nontrivial(case, r):
+    if r == "1":
+        return True
     st = r.split(" | ")
     if len(st) != 3 or not all(s.startswith("OK ") for s in st):
         return False
